@@ -24,6 +24,7 @@
    Redelegation) are separate fields from the record KEY, as in the store.
    LegacyDec shares are their raw integer.  Signature recovery is a Section variable. *)
 From Coq Require Import ZArith List Bool.
+From FxV Require Import gen.Gen_C14.
 Import ListNotations.
 Open Scope Z_scope.
 
@@ -532,12 +533,22 @@ Definition cast_vote (a : addr) (pid : Z) (s : state) : outcome state :=
   end.
 
 (* ---------- restart from an exported genesis ---------- *)
-(* x/migrate/module.go: ExportGenesis writes every record (keeper.ExportGenesis), but AppModule.InitGenesis
-   ignores its data argument and calls keeper.InitGenesis(ctx, types.GenesisState{}): the new chain starts
-   with an empty migrate store.  The other modules' export/import is outside this model (taken as lossless
-   on the components carried here; the correspondence compares only the migrate store for this step). *)
-Definition export_import (s : state) : state :=
-  set_mig s {| recs := []; dir_from := []; dir_to := [] |}.
+(* x/migrate/module.go: ExportGenesis writes one MigrateRecord per source (keeper.IterateMigrateRecords skips the
+   target-side entries); AppModule.InitGenesis unmarshals them and keeper.InitGenesis calls SetMigrateRecord for
+   each, which writes the source-side and the target-side record and both direction keys again, stamped with the
+   block height of the import.  Whether InitGenesis hands the exported data to the keeper at all is the generated
+   fact gen.Gen_C14.genesis_import_keeps_records (read from the current source on every run; before commit
+   11e9a2c it was false).  SetMigrateRecord only ever writes records in source/target pairs, so re-creating the
+   pairs from the source side re-creates every record: the step is written as "every record kept, height
+   re-stamped" (compared with the real export + InitChain on every run).  The other modules' export/import is
+   outside this model; the correspondence compares only the migrate store for this step. *)
+Definition restamp (h : Z) (r : mig_rec) : mig_rec := {| m_flag := m_flag r; m_other := m_other r; m_height := h |}.
+
+Definition export_import (h : Z) (s : state) : state :=
+  if genesis_import_keeps_records
+  then set_mig s {| recs := map (fun kv => (fst kv, restamp h (snd kv))) (recs (mig s));
+                    dir_from := dir_from (mig s); dir_to := dir_to (mig s) |}
+  else set_mig s {| recs := []; dir_from := []; dir_to := [] |}.
 
 (* ---------- operations and histories ---------- *)
 Section Ops.
@@ -550,7 +561,7 @@ Section Ops.
   | OSubmit (a : addr) (amt : Z)
   | ODeposit (a : addr) (pid amt : Z)
   | OVote (a : addr) (pid : Z)
-  | OExportImport.
+  | OExportImport (h : Z).
 
   (* a failed (or panicking) transaction leaves the state as it was *)
   Definition keep (s : state) (o : outcome state) : state :=
@@ -563,7 +574,7 @@ Section Ops.
     | OSubmit a amt => keep s (submit_proposal a amt s)
     | ODeposit a pid amt => keep s (add_deposit pid a amt s)
     | OVote a pid => keep s (cast_vote a pid s)
-    | OExportImport => export_import s
+    | OExportImport h => export_import h s
     end.
 
   Definition run (s : state) (ops : list op) : state := fold_left step ops s.
